@@ -29,7 +29,7 @@ def run(ctx):
         w_corpus.run_adversarial(ctx)
         ctx.floor('C07.adversarial_objects', 40)
     saved = ctx.deadline
-    ctx.deadline = time.time() + {'quick': 10, 'thorough': 120}[ctx.tier]
+    ctx.deadline = ctx.clock() + {'quick': 10, 'thorough': 120}[ctx.tier]
     w_auto.run(ctx, ('C07',), {'quick': 3000, 'thorough': 300000}[ctx.tier])
     ctx.deadline = saved
     w_corpus.run_corpus(ctx)
